@@ -23,7 +23,7 @@ func init() {
 }
 
 type c14Op struct {
-	kind byte // 'a' append n tagged bytes, 'w' chain a slice of n tagged bytes, 'n' append+chain+append inside one callback, 'd' append to the writer's own buffer and chain, 'f' flush
+	kind byte // 'a' append n tagged bytes, 'w' chain a slice of n tagged bytes, 'n' append+chain+append inside one callback, 'd' append to the writer's own buffer and chain, 'j' chain two neighbouring halves of one allocation with an append between, 'f' flush
 	n    int
 }
 
@@ -107,6 +107,16 @@ func c14Play(ops []c14Op, sink *simio.FaultySink) string {
 			})
 			chained = append(chained, b)
 			pending = append(append(append(pending, a...), b...), c...)
+		case 'j':
+			// two chained slices that are neighbouring parts of one allocation (a
+			// batch cut in two), with appended bytes between them
+			whole := fill(2 * op.n)
+			a, b, m := whole[:op.n], whole[op.n:], fill(3)
+			w.ChainWrite(a)
+			w.ChainBuffer(func(buf *proto.Buffer) { buf.Buf = append(buf.Buf, m...) })
+			w.ChainWrite(b)
+			chained = append(chained, whole)
+			pending = append(append(append(pending, a...), m...), b...)
 		case 'd':
 			// the caller appends to the buffer it gave the writer (the client encodes
 			// its packets that way) and chains a slice after it
@@ -278,7 +288,12 @@ func runC14(t *testing.T, c *choice.Stream, r *Result, opt RunOpt) {
 	var ops []c14Op
 	total := 0
 	for i := 0; i < n; i++ {
-		switch c.Weighted("op", 5, 4, 3, 1, 1) {
+		switch c.Weighted("op", 5, 4, 3, 1, 1, 1) {
+		case 5:
+			k := c.Pick("j.n", 1, 4, 64, 5000)
+			ops = append(ops, c14Op{'j', k})
+			total += 2*k + 3
+			continue
 		case 3:
 			k := c.Pick("n.n", 1, 3, 64, 5000)
 			ops = append(ops, c14Op{'n', k})
